@@ -1,10 +1,12 @@
 //! C04 runner (`pure` engine, hook H2): builds REAL `ClusterState`s / `ReplicaLocator`s from
-//! generated topologies through `scylla::cluster::verif_state::cluster_state`, and records every
+//! generated topologies through `scylla::cluster::verif_state::cluster_state_via_new` (the real
+//! `ClusterState::new` with a reject-all host filter), and records every
 //! view of `replicas_for_token(..)` for generated (strategy, datacenter restriction, token)
 //! queries.
 //!
 //! One case line = one ring + set of precomputed strategies + one query, with all observed views:
-//!   Q <nodes> <ring> <pre> <strategy> <dc> <token> | <len> <iter> <nth> <choose> <cf> <ordered> <ep> <np>
+//!   Q <nodes> <ring> <pre> <strategy> <dc> <token> | <len> <iter> <nth> <choose> <cf> <ordered> <ep> <np> <ops> <sh> <osh> <hints> <ohint> <vsh>
+//!           vsh: shards yielded by nth(k) / by choose / by the first interleaving (`_` = nothing yielded)
 //! nodes     id.dc.rack.sharder,... (hex; `_` = None; sharder = <nr_shards>-<msb_ignore>)   peers in metadata order
 //! ring      token.id,...           (signed hex token)  ring entries in insertion order (peer by peer)
 //! pre       strategy;strategy...   keyspace strategies registered in the ClusterState (precomputed)
@@ -82,28 +84,37 @@ fn payload_bytes(a: i64, b: i64, raw: &[(u128, i32)]) -> Vec<u8> {
 fn run_tablet_case(cx: &mut Ctx, f: &[&str]) -> String {
     let topo = parse_topo(f[1], f[2]);
     install_sharders(&topo);
-    let mut cs = build(&cx.rt, &topo, &[]);
     cx.key.clear();
-    for tb in f[3].split(';').filter(|x| !x.is_empty() && *x != "-") {
-        let p: Vec<&str> = tb.split(':').collect();
-        let (first, last) = (parse_i(p[0]), parse_i(p[1]));
-        let raw: Vec<(u128, i32)> = p[2]
-            .split('+')
-            .filter(|x| !x.is_empty() && *x != "-")
-            .map(|e| {
-                let (h, s) = e.split_once('.').unwrap();
-                (u128::from_str_radix(h, 16).unwrap(), i32::from_str_radix(s, 16).unwrap())
-            })
-            .collect();
-        // an accepted payload (a, b, ..) is the tablet [a+1, b]
-        let payload = std::collections::HashMap::from([(
-            "tablets-routing-v1".to_string(),
-            bytes::Bytes::from(payload_bytes(first - 1, last, &raw)),
-        )]);
-        if !learn_tablet_from_payload(&mut cs, "tks", "tt", &payload) {
-            return "error tablet-refused".into();
+    let rt = &cx.rt;
+    let built = catch(AssertUnwindSafe(|| {
+        let mut cs = build(rt, &topo, &[]);
+        for tb in f[3].split(';').filter(|x| !x.is_empty() && *x != "-") {
+            let p: Vec<&str> = tb.split(':').collect();
+            let (first, last) = (parse_i(p[0]), parse_i(p[1]));
+            let raw: Vec<(u128, i32)> = p[2]
+                .split('+')
+                .filter(|x| !x.is_empty() && *x != "-")
+                .map(|e| {
+                    let (h, s) = e.split_once('.').unwrap();
+                    (u128::from_str_radix(h, 16).unwrap(), i32::from_str_radix(s, 16).unwrap())
+                })
+                .collect();
+            // an accepted payload (a, b, ..) is the tablet [a+1, b]
+            let payload = std::collections::HashMap::from([(
+                "tablets-routing-v1".to_string(),
+                bytes::Bytes::from(payload_bytes(first - 1, last, &raw)),
+            )]);
+            if !learn_tablet_from_payload(&mut cs, "tks", "tt", &payload) {
+                return Err(());
+            }
         }
-    }
+        Ok(cs)
+    }));
+    let cs = match built {
+        Ok(Ok(cs)) => cs,
+        Ok(Err(())) => return "error tablet-refused".into(),
+        Err(_) => return "panic".into(),
+    };
     let dc_name = if f[4] == "_" { None } else { Some(format!("dc{}", u64::from_str_radix(f[4], 16).unwrap())) };
     let dc = dc_name.as_deref();
     let token = Token::new(parse_i(f[5]));
@@ -149,8 +160,15 @@ fn run_case(cx: &mut Ctx, case: &str) -> String {
     if cx.key != key {
         let topo = parse_topo(f[1], f[2]);
         install_sharders(&topo);
-        cx.with_pre = Some(build(&cx.rt, &topo, &pre));
-        cx.without = Some(build(&cx.rt, &topo, &[]));
+        cx.key.clear();
+        let rt = &cx.rt;
+        match catch(AssertUnwindSafe(|| (build(rt, &topo, &pre), build(rt, &topo, &[])))) {
+            Ok((a, b)) => {
+                cx.with_pre = Some(a);
+                cx.without = Some(b);
+            }
+            Err(_) => return "panic".into(),
+        }
         cx.key = key;
     }
     let strat = parse_strat(f[4]);
@@ -169,18 +187,33 @@ fn run_case(cx: &mut Ctx, case: &str) -> String {
         let iter = ids(rs().into_iter());
         let shl = |v: Vec<u32>| if v.is_empty() { "-".to_string() } else { v.iter().map(|x| hex_u(*x as u128)).collect::<Vec<_>>().join(",") };
         let sh = shl(rs().into_iter().map(|(_, s)| s).collect());
+        let mut nth_sh: Vec<String> = Vec::new();
         let nth: Vec<String> = (0..len + 2)
             .map(|k| match rs().into_iter().nth(k) {
-                Some((n, _)) => hex_u(n.host_id.as_u128()),
-                None => "_".into(),
+                Some((n, s)) => {
+                    nth_sh.push(hex_u(s as u128));
+                    hex_u(n.host_id.as_u128())
+                }
+                None => {
+                    nth_sh.push("_".into());
+                    "_".into()
+                }
             })
             .collect();
+        let mut choose_sh: Vec<String> = Vec::new();
         let choose: Vec<String> = (0..len)
             .map(|k| match vloc::choose_filtered(rs(), vec![draw_for(k, len)], |_| true) {
-                Some((n, _)) => hex_u(n.host_id.as_u128()),
-                None => "_".into(),
+                Some((n, s)) => {
+                    choose_sh.push(hex_u(s as u128));
+                    hex_u(n.host_id.as_u128())
+                }
+                None => {
+                    choose_sh.push("_".into());
+                    "_".into()
+                }
             })
             .collect();
+        let mut ops_sh: Vec<String> = Vec::new();
         let choose = format!("{}:{}", if calibrated && len <= 40 { "E" } else { "M" }, if choose.is_empty() { "-".into() } else { choose.join(",") });
         let cf = match vloc::choose_filtered(rs(), vec![token.value() as u64 ^ 0x5bd1e995], |(n, _)| n.host_id.as_u128() % 2 == 1) {
             Some((n, _)) => hex_u(n.host_id.as_u128()),
@@ -223,8 +256,18 @@ fn run_case(cx: &mut Ctx, case: &str) -> String {
                         let x = if *o < 0 { it.next() } else { it.nth(*o as usize) };
                         hv.push(hs(it.size_hint()));
                         match x {
-                            Some((n, _)) => hex_u(n.host_id.as_u128()),
-                            None => "_".into(),
+                            Some((n, s)) => {
+                                if hints.is_empty() {
+                                    ops_sh.push(hex_u(s as u128));
+                                }
+                                hex_u(n.host_id.as_u128())
+                            }
+                            None => {
+                                if hints.is_empty() {
+                                    ops_sh.push("_".into());
+                                }
+                                "_".into()
+                            }
                         }
                     })
                     .collect::<Vec<_>>()
@@ -234,7 +277,9 @@ fn run_case(cx: &mut Ctx, case: &str) -> String {
             })
             .collect();
         let ohint = hs(rs().into_replicas_ordered().into_iter().size_hint());
-        format!("{} {} {} {} {} {} {} {} {} {} {} {} {}", hex_u(len as u128), iter, nth.join(","), choose, cf, ordered, ep, np, ops.join("/"), sh, osh, hints.join("/"), ohint)
+        let jl = |v: &Vec<String>| if v.is_empty() { "-".to_string() } else { v.join(",") };
+        let vsh = format!("{}/{}/{}", jl(&nth_sh), jl(&choose_sh), jl(&ops_sh));
+        format!("{} {} {} {} {} {} {} {} {} {} {} {} {} {}", hex_u(len as u128), iter, nth.join(","), choose, cf, ordered, ep, np, ops.join("/"), sh, osh, hints.join("/"), ohint, vsh)
     }));
     match r {
         Ok(s) => s,
